@@ -105,7 +105,7 @@ def foreign(rng, depth=0):
                 s += rng.choice(["x", start_tag(rng), text_elem(rng), "<![CDATA[<b>]]>", ""])
                 s += end_tag(rng, n)
         elif r < 0.45:
-            s += "<![CDATA[" + rng.choice(["x", "<b>", "]]", "]", "]>", ""]) + rng.choice(["]]>", "]]", ""])
+            s += rng.choice(["<![CDATA[", "<![CDATA[", "<![CDATA[", "<![cdata[", "<![CData["]) + rng.choice(["x", "<b>", "]]", "]", "]>", ""]) + rng.choice(["]]>", "]]", ""])
         elif r < 0.6 and depth < 2:
             s += foreign(rng, depth + 1)
         elif r < 0.75:
